@@ -170,13 +170,19 @@ pub fn mod_n_from_hash(ha: &[u8]) -> U256 {
 
     let (sum1, carry1) = r[4].overflowing_add(z[3]);
     r[4] = sum1;
-    let t = z[4] + carry1 as u64;
+    let (t, carry_t) = z[4].overflowing_add(carry1 as u64);
     let (sum2, carry2) = r[5].overflowing_add(t);
     r[5] = sum2;
-    r[6] = u64::from(carry2);
+    r[6] = u64::from(carry_t || carry2);
 
     r = u256_mul(&[r[5], r[6], 0, 0], &SM9_N_MINUS_ONE);
-    h = u256_sub(&[z[0], z[1], z[2], z[3]], &[r[0], r[1], r[2], r[3]]).0;
+    // the quotient estimate can be one short, so Ha - q(N-1) lies in [0, 2(N-1)) and needs a fifth limb
+    let (d, borrow) = u256_sub(&[z[0], z[1], z[2], z[3]], &[r[0], r[1], r[2], r[3]]);
+    h = d;
+    let top = z[4].wrapping_sub(r[4]).wrapping_sub(borrow as u64);
+    if top != 0 || u256_cmp(&h, &SM9_N_MINUS_ONE) >= 0 {
+        h = u256_sub(&h, &SM9_N_MINUS_ONE).0;
+    }
     h = mod_n_add(&h, &SM9_ONE);
     h
 }
